@@ -71,14 +71,12 @@ class It:
 
 
 def analyse(ctx, cfg, key, it, byval=False):
+    """Analysis under the iterator invariant; private helpers are inlined (ctx.analysis_inl)."""
     db = ctx.db(cfg)
     b = db.get(key)
     if b is None:
         return None, None
-    k = (cfg, key, "inv")
-    if k not in ctx.analysed:
-        ctx.analysed[k] = analyze(db, b, None, it.inv_facts(byval))
-    return b, ctx.analysed[k]
+    return b, ctx.analysis_inl(cfg, key, it.inv_facts(byval), tag="inv%d" % byval)
 
 
 def NS(an):
@@ -174,41 +172,299 @@ def check_next(ctx, cfg, it, name):
     check_invariant_preserved(ctx, cfg, name, b, an, it, base)
 
 
-def check_nth(ctx, cfg, it, name):
-    rule = "C06.S"
-    b, an = analyse(ctx, cfg, K[name], it)
+DEFAULTED_OK = {
+    "nth": "core's default nth = advance_by(n) then next(): defined through next() only",
+    "nth_back": "core's default nth_back = advance_back_by(n) then next_back(): defined through next_back() only",
+    "count": "core's default count folds over next()", "last": "core's default last folds over next()",
+    "fold": "core's default fold loops over next()", "rfold": "core's default rfold loops over next_back()",
+    "len": "core's default len is size_hint().0 (checked equal to the upper bound)",
+}
+
+
+def analyse_x(ctx, cfg, key, it):
+    """Like analyse(), and every return path has its own return block."""
+    db = ctx.db(cfg)
+    b = db.get(key)
     if b is None:
-        ctx.ob(rule, K[name], MISSING, "method not found", cfg=cfg)
-        return
+        return None, None
+    return b, ctx.analysis_inl(cfg, key, it.inv_facts(False), split=True, keep=(K["next"], K["next_back"]), tag="inv0")
+
+
+def acyclic_paths(an, target, limit=400):
+    """All loop-free paths (lists of blocks) from the entry block to `target` over normal edges; None if there are too many."""
+    out = []
+    stack = [(0, (0,))]
+    while stack:
+        bb, path = stack.pop()
+        if bb == target:
+            out.append(list(path))
+            if len(out) > limit:
+                return None
+            continue
+        for s in an.edges.get(bb, []):
+            if an.blocks[s]["cleanup"] or s in path:
+                continue
+            stack.append((s, path + (s,)))
+    return out
+
+
+def has_cycle(an):
+    """A normal-edge cycle among reachable blocks."""
+    color = {}
+
+    def visit(b):
+        color[b] = 1
+        for s in an.edges.get(b, []):
+            if an.blocks[s]["cleanup"]:
+                continue
+            if color.get(s) == 1:
+                return True
+            if s not in color and visit(s):
+                return True
+        color[b] = 2
+        return False
+    return visit(0)
+
+
+NONE = ("A", ("adt", "core::option::Option", 0), ())
+
+
+def nth_path_spec(an, it, name, path, r):
+    """Decide one return path of nth / nth_back against the deque specification.  Returns (status, detail)."""
+    from ..rules import tiling, is_view, is_panic_plumbing
+    from ..poly import mk_min
     N, S = NS(an)
     lo, hi = it.entry(an, False)
     n = Poly.atom(("arg", 2))
     base = ("arg", 1)
-    from ..poly import mk_min
-    m = mk_min(n, hi - lo)
-    sts = stores_to(an, it, base)
-    dips = an.calls_to("core::ptr::drop_in_place")
-    tail = [c for c in an.calls if c.key == (K["next"] if name == "nth" else K["next_back"])]
-    ok = len(sts) == 1 and len(dips) == 1 and len(tail) == 1
-    det = "expected one index store, one drop_in_place and one delegation; found %d / %d / %d" % (len(sts), len(dips), len(tail))
-    if ok:
-        s, d, t = sts[0], dips[0], tail[0]
-        p = d.args[0]
-        if name == "nth":
-            st_ok = s["cell"][1][0] == it.i0 and s["val"][0] == "I" and peq(an, s["facts"], s["val"][1], lo + m)
-            rng_ok = p[0] == "P" and p[1] == ("field", base, (it.ia,)) and p[3] is not None and peq(an, d.facts, p[2], lo * S) and peq(an, d.facts, p[3], m)
-            spec = "drop [index, index+m), index += m, then next()   (m = min(n, len))"
+    front = name == "nth"
+    tailk = K["next"] if front else K["next_back"]
+    cur = {it.i0: lo, it.i1: hi}
+    D = []
+    facts = set(r["facts"])
+    deleg = None
+    post = False
+    reads = []
+    sts = {s["site"]: s for s in stores_to(an, it, base)}
+    inpath = set(path)
+    events = []
+    for site, s in sts.items():
+        if site[0] in inpath:
+            events.append((path.index(site[0]), 0, site[1], "store", s))
+    for c in an.calls:
+        if c.bb in inpath:
+            events.append((path.index(c.bb), 1, 0, "call", c))
+    events.sort(key=lambda e: e[:3])
+    for _, _, _, kind, e in events:
+        if kind == "store":
+            facts |= set(e["facts"])
+            if e["val"][0] != "I":
+                return UNKNOWN, "non-integer store to an index field"
+            cur[e["cell"][1][0]] = e["val"][1]
+            post = post or deleg is not None
+            continue
+        c = e
+        facts |= set(c.facts)
+        if c.key == tailk:
+            if deleg is not None or not (c.args[0][0] == "P" and c.args[0][1] == base and not c.args[0][2].t):
+                return UNKNOWN, "more than one delegation on a path, or delegation on something other than self"
+            deleg = (c, dict(cur), list(D))
+        elif c.fn == "core::ptr::drop_in_place":
+            p = c.args[0]
+            if not (p[0] == "P" and p[1] == ("field", base, (it.ia,))):
+                return REFUTED, "drop_in_place of something other than the iterator's own slots: %s" % vstr(p)
+            cnt = p[3] if p[3] is not None else Poly.const(1)
+            D.append((p[2], cnt * S))
+            post = post or deleg is not None
+        elif c.fn == "core::ptr::read" and c.args[0][0] == "P" and c.args[0][1] == ("field", base, (it.ia,)):
+            reads.append(c)
+            post = post or deleg is not None
+        elif is_view(c) or is_panic_plumbing(c) or an.is_pure(c) or c.key in (K["len"],) or getattr(c, "no_effects", False):
+            continue
+        elif c.key in (K["next"], K["next_back"]):
+            return REFUTED, "delegates to %s in %s" % (c.key.split("::")[-1], name)
         else:
-            st_ok = s["cell"][1][0] == it.i1 and s["val"][0] == "I" and peq(an, s["facts"], s["val"][1], hi - m)
-            rng_ok = p[0] == "P" and p[1] == ("field", base, (it.ia,)) and p[3] is not None and peq(an, d.facts, p[2], (hi - m) * S) and peq(an, d.facts, p[3], m)
-            spec = "drop [index_back-m, index_back), index_back -= m, then next_back()"
-        order = an.dominates(s["site"][0], t.bb) and an.dominates(d.bb, t.bb)
-        self_ok = t.args[0][0] == "P" and t.args[0][1] == base and not t.args[0][2].t
-        ret_ok = all(r["val"] == t.ret for r in an.returns)
-        ok = st_ok and rng_ok and order and self_ok and ret_ok
-        det = "%s: store: %s; dropped range: %s; both before the delegation on self: %s/%s; its result returned: %s" % (spec, st_ok, rng_ok, order, self_ok, ret_ok)
-    ctx.ob(rule, K[name], ok, det, at=b["at"], cfg=cfg)
-    ctx.sample({"rule": rule, "method": name, "cfg": cfg, "detail": det})
+            return UNKNOWN, "call outside the recognised vocabulary on this path: %s" % c.fn
+    fs = frozenset(facts)
+    pf = an.poly_facts(fs)
+    ln = hi - lo
+
+    def tiles(dl, start, count):
+        if not dl:
+            return prove(("==", count), pf), "nothing dropped, required count %r == 0" % (count,)
+        st, det = tiling(an, [(o - start * S, z) for o, z in dl], count * S, fs)
+        return st == PROVED, det
+    rv = r["val"]
+    m = mk_min(n, ln)
+    if deleg is not None and rv == deleg[0].ret and not post:
+        c, pre, dl = deleg
+        if front:
+            okf = prove(("==", pre[it.i0] - lo - m), pf) and prove(("==", pre[it.i1] - hi), pf)
+            okd, dd = tiles(dl, lo, m)
+            spec = "before next(): index = index0 + m, index_back unchanged, dropped exactly [index0, index0+m)  (m = min(n, len))"
+        else:
+            okf = prove(("==", pre[it.i1] - hi + m), pf) and prove(("==", pre[it.i0] - lo), pf)
+            okd, dd = tiles(dl, hi - m, m)
+            spec = "before next_back(): index_back = back0 - m, index unchanged, dropped exactly [back0-m, back0)  (m = min(n, len))"
+        return (PROVED if okf and okd else REFUTED), "delegating path: %s: fields %s, drops %s (%s)" % (spec, okf, okd, dd)
+    if rv == NONE and deleg is None:
+        oke = prove((">=", n - ln), pf)
+        okf = prove(("==", cur[it.i0] - cur[it.i1]), pf)
+        okd, dd = tiles(D, lo, ln)
+        return (PROVED if oke and okf and okd else REFUTED), "exhausting path returning None: only when n >= len: %s; iterator left empty: %s; dropped exactly the live range: %s (%s)" % (oke, okf, okd, dd)
+    if rv[0] == "A" and rv[1] == ("adt", "core::option::Option", 1) and deleg is None and len(reads) == 1 and rv[2] == (reads[0].ret,):
+        rd = reads[0]
+        okg = prove((">=", ln - n - 1), pf)
+        if front:
+            oks = prove(("==", rd.args[0][2] - (lo + n) * S), pf)
+            okf = prove(("==", cur[it.i0] - lo - n - 1), pf) and prove(("==", cur[it.i1] - hi), pf)
+            okd, dd = tiles(D, lo, n)
+        else:
+            oks = prove(("==", rd.args[0][2] - (hi - n - 1) * S), pf)
+            okf = prove(("==", cur[it.i1] - hi + n + 1), pf) and prove(("==", cur[it.i0] - lo), pf)
+            okd, dd = tiles(D, hi - n, n)
+        return (PROVED if okg and oks and okf and okd else REFUTED), "direct path returning Some: only when n < len: %s; the slot read is element n from this end: %s; fields: %s; skipped elements dropped: %s (%s)" % (okg, oks, okf, okd, dd)
+    return UNKNOWN, "return value %s is neither the delegation's result, None, nor Some(slot read)" % vstr(rv)
+
+
+def ownership_path(an, it, name, path, r):
+    """Ownership reading of one return path of a `&mut self` iterator method (used by C03.I): the elements the iterator claimed at entry,
+    [index0, back0), are - at the delegation to next()/next_back() or at the return - exactly partitioned into the ranges destroyed in place,
+    the slots moved out (and handed to the caller), and the range the iterator still claims."""
+    from ..rules import tiling, is_view, is_panic_plumbing
+    N, S = NS(an)
+    lo, hi = it.entry(an, False)
+    base = ("arg", 1)
+    cur = {it.i0: lo, it.i1: hi}
+    pieces = []
+    facts = set(r["facts"])
+    deleg = None
+    reads = []
+    sts = {s_["site"]: s_ for s_ in stores_to(an, it, base)}
+    inpath = set(path)
+    events = []
+    for site, s_ in sts.items():
+        if site[0] in inpath:
+            events.append((path.index(site[0]), 0, site[1], "store", s_))
+    for c in an.calls:
+        if c.bb in inpath:
+            events.append((path.index(c.bb), 1, 0, "call", c))
+    events.sort(key=lambda e: e[:3])
+    for _, _, _, kind, e in events:
+        if deleg is not None and (kind == "store" or e.fn in ("core::ptr::drop_in_place", "core::ptr::read")):
+            return REFUTED, "the iterator's storage or indices are touched again after delegating to %s" % deleg.key.split("::")[-1]
+        if kind == "store":
+            facts |= set(e["facts"])
+            if e["val"][0] != "I":
+                return UNKNOWN, "non-integer store to an index field"
+            cur[e["cell"][1][0]] = e["val"][1]
+            continue
+        c = e
+        facts |= set(c.facts)
+        if c.key in (K["next"], K["next_back"]) and c.key != K.get(name):
+            if deleg is not None or not (c.args[0][0] == "P" and c.args[0][1] == base and not c.args[0][2].t):
+                return UNKNOWN, "more than one delegation on a path, or delegation on something other than self"
+            deleg = c
+        elif c.fn == "core::ptr::drop_in_place":
+            p = c.args[0]
+            if not (p[0] == "P" and p[1] == ("field", base, (it.ia,))):
+                return REFUTED, "drop_in_place of something other than the iterator's own slots: %s" % vstr(p)
+            pieces.append((p[2], (p[3] if p[3] is not None else Poly.const(1)) * S))
+        elif c.fn == "core::ptr::read" and c.args[0][0] == "P" and c.args[0][1] == ("field", base, (it.ia,)):
+            reads.append(c)
+            pieces.append((c.args[0][2], S))
+        elif is_view(c) or is_panic_plumbing(c) or an.is_pure(c) or c.key in (K["len"],) or getattr(c, "no_effects", False):
+            continue
+        else:
+            return UNKNOWN, "call outside the recognised vocabulary on this path: %s" % c.fn
+    fs = frozenset(facts)
+    pf = an.poly_facts(fs)
+    # values moved out must reach the caller
+    rv = r["val"]
+    for rd in reads:
+        if not find_in(rv, lambda t: t == rd.ret):
+            return REFUTED, "a slot is moved out (ptr::read) but the value does not reach the return value"
+    if deleg is not None and rv != deleg.ret:
+        return REFUTED, "the delegation's result is not what is returned"
+    claimed = (cur[it.i0] * S, (cur[it.i1] - cur[it.i0]) * S)
+    allp = [(o - lo * S, z) for o, z in pieces + [claimed]]
+    # empty pieces may sit anywhere: drop those that are provably empty
+    allp = [q for q in allp if not prove(("==", q[1]), pf)]
+    if not allp:
+        ok = prove(("==", hi - lo), pf)
+        return (PROVED if ok else REFUTED), "nothing destroyed, moved out or still claimed: requires an empty iterator: %s" % ok
+    st, det = tiling(an, allp, (hi - lo) * S, fs)
+    return st, "destroyed %d range(s), moved out %d slot(s), still claimed [%r, %r)%s: %s" % (len(pieces) - len(reads), len(reads), cur[it.i0], cur[it.i1], " at the delegation" if deleg is not None else "", det)
+
+
+def check_ownership(ctx, cfg, it, name, rule="C03.I"):
+    """C03.I for one `&mut self` method of the by-value iterator (private helpers inlined, one verdict per return path)."""
+    b, an = analyse_x(ctx, cfg, K[name], it)
+    if b is None:
+        if name in DEFAULTED_OK:
+            ctx.ob(rule, K[name], PROVED, "no override: %s" % DEFAULTED_OK[name], cfg=cfg)
+        else:
+            ctx.ob(rule, K[name], MISSING, "method not found", cfg=cfg)
+        return
+    if has_cycle(an):
+        ctx.ob(rule, K[name], UNKNOWN, "the body contains a loop: outside the path-enumeration argument", at=b["at"], cfg=cfg)
+        return
+    bad, dets, n_paths = [], [], 0
+    for r in an.returns:
+        ps = acyclic_paths(an, r["bb"])
+        if ps is None:
+            bad.append((UNKNOWN, "too many paths"))
+            continue
+        for p in ps:
+            n_paths += 1
+            st, det = ownership_path(an, it, name, p, r)
+            dets.append(det)
+            if st != PROVED:
+                bad.append((st, det))
+    if not an.returns:
+        bad.append((UNKNOWN, "no return path"))
+    if bad:
+        st = REFUTED if any(x[0] == REFUTED for x in bad) else UNKNOWN
+        det = "; ".join(sorted({x[1] for x in bad}))
+    else:
+        st, det = PROVED, "%d return path(s); on each, the entry range [index, index_back) is exactly partitioned: %s" % (n_paths, " | ".join(sorted(set(dets))))
+    ctx.ob(rule, K[name], st, det[:1500], at=b["at"], cfg=cfg)
+    ctx.sample({"rule": rule, "method": name, "cfg": cfg, "detail": det[:600]})
+
+
+def check_nth(ctx, cfg, it, name):
+    rule = "C06.S"
+    b, an = analyse_x(ctx, cfg, K[name], it)
+    if b is None:
+        ctx.ob(rule, K[name], PROVED, "no override: %s" % DEFAULTED_OK[name], cfg=cfg)
+        return
+    base = ("arg", 1)
+    if has_cycle(an):
+        ctx.ob(rule, K[name], UNKNOWN, "the body contains a loop: outside the path-enumeration argument (each return path is checked against the deque specification)", at=b["at"], cfg=cfg)
+        return
+    n_paths = 0
+    bad = []
+    dets = []
+    for r in an.returns:
+        ps = acyclic_paths(an, r["bb"])
+        if ps is None:
+            bad.append((UNKNOWN, "too many paths"))
+            continue
+        for p in ps:
+            n_paths += 1
+            st, det = nth_path_spec(an, it, name, p, r)
+            dets.append(det)
+            if st != PROVED:
+                bad.append((st, det))
+    if not an.returns:
+        bad.append((UNKNOWN, "no return path"))
+    if bad:
+        st = REFUTED if any(x[0] == REFUTED for x in bad) else UNKNOWN
+        det = "; ".join(sorted({x[1] for x in bad}))
+    else:
+        st, det = PROVED, "%d return path(s), helpers inlined: %s; each path: %s" % (n_paths, [x["callee"].split("::")[-1] for x in an.body.get("inlined", [])], " | ".join(sorted(set(dets))))
+    ctx.ob(rule, K[name], st, det[:1500], at=b["at"], cfg=cfg)
+    ctx.sample({"rule": rule, "method": name, "cfg": cfg, "detail": det[:600]})
     check_invariant_preserved(ctx, cfg, name, b, an, it, base)
 
 
@@ -227,7 +483,7 @@ def check_simple(ctx, cfg, it):
     # count (by value)
     b, an = analyse(ctx, cfg, K["count"], it, True)
     if b is None:
-        ctx.ob(rule, K["count"], MISSING, "method not found", cfg=cfg)
+        ctx.ob(rule, K["count"], PROVED, "no override: %s" % DEFAULTED_OK["count"], cfg=cfg)
     else:
         lo, hi = it.entry(an, True)
         ok = bool(an.returns) and all(r["val"] == ("I", hi - lo) for r in an.returns)
@@ -235,7 +491,7 @@ def check_simple(ctx, cfg, it):
     # last
     b, an = analyse(ctx, cfg, K["last"], it, True)
     if b is None:
-        ctx.ob(rule, K["last"], MISSING, "method not found", cfg=cfg)
+        ctx.ob(rule, K["last"], PROVED, "no override: %s" % DEFAULTED_OK["last"], cfg=cfg)
     else:
         cs = [c for c in an.calls if c.key == K["next_back"]]
         ok = len(cs) == 1 and len(payload_calls(an)) == 1 and cs[0].args[0][0] == "P" and cs[0].args[0][1] == ("local", 1) and all(r["val"] == cs[0].ret for r in an.returns)
@@ -273,7 +529,7 @@ def check_folds(ctx, cfg, it, name):
     rule = "C06.S"
     b, an = analyse(ctx, cfg, K[name], it, True)
     if b is None:
-        ctx.ob(rule, K[name], MISSING, "method not found", cfg=cfg)
+        ctx.ob(rule, K[name], PROVED, "no override: %s" % DEFAULTED_OK[name], cfg=cfg)
         return
     db = ctx.db(cfg)
     N, S = NS(an)
@@ -374,18 +630,42 @@ def check_clone(ctx, cfg, it):
     ctx.sample({"rule": rule, "method": "clone", "cfg": cfg, "detail": det})
 
 
+def iter_entry_points(ctx, cfg, it):
+    """(body, by-value receiver?) for every exported method whose Self type is the iterator (private helpers are judged inlined in their callers)."""
+    db = ctx.db(cfg)
+    out = []
+    for b in db.bodies:
+        if b["kind"] != "AssocFn" or "impl_self" not in b:
+            continue
+        st = b["impl_self"]
+        if st.get("k") != "adt" or st["def"] != it.path or not (b.get("vis") or {}).get("exported", True):
+            continue
+        sig = b.get("sig")
+        if not sig or not sig["inputs"]:
+            continue
+        first = sig["inputs"][0]
+        if first.get("k") == "ref" and tstr(first["t"]) == tstr(st):
+            out.append((b, False))
+        elif tstr(first) == tstr(st):
+            out.append((b, True))
+    return out
+
+
 def check_unchecked_bounds(ctx, cfg, it):
     rule = "C06.U"
     n = 0
-    for name in ("next", "next_back", "nth", "nth_back", "as_slice", "as_mut_slice", "fold", "rfold"):
-        byval = name in ("fold", "rfold")
-        b, an = analyse(ctx, cfg, K[name], it, byval)
-        if b is None:
+    anchors = set()
+    for b, byval in iter_entry_points(ctx, cfg, it):
+        if b.get("impl_trait") == "core::ops::Drop":
             continue
+        _, an = analyse(ctx, cfg, b["key"], it, byval)
         N, S = NS(an)
-        for i, c in enumerate(an.calls):
+        k = 0
+        for c in an.calls:
             if c.fn not in ("core::slice::<impl [T]>::get_unchecked", "core::slice::<impl [T]>::get_unchecked_mut"):
                 continue
+            if not (c.args[0][0] == "P" and isinstance(c.args[0][1], tuple) and c.args[0][1][0] == "field" and c.args[0][1][2] == (it.ia,)):
+                continue  # not the iterator's own storage
             pf = an.poly_facts(c.facts)
             idx = c.args[1]
             rng = an.range_of(idx, c.args[0][3] if c.args[0][0] == "P" else None)
@@ -397,8 +677,17 @@ def check_unchecked_bounds(ctx, cfg, it):
                 det = "index %r within [0, N) under the invariant and the guard: %s" % (idx[1], ok)
             else:
                 ok, det = None, "index expression not understood: %s" % vstr(idx)
-            ctx.ob(rule, "%s#get_unchecked#%d" % (K[name], n), ok, det, at=c.at, cfg=cfg)
+            ctx.ob(rule, "%s#get_unchecked#%d" % (b["key"], k), ok, det, at=c.at, cfg=cfg)
+            k += 1
             n += 1
+        if k:
+            anchors.add(b["key"])
+    # non-vacuity: the mandatory accessors still reach their storage through a recognised (checked) access
+    for name in ("next", "next_back", "as_slice", "as_mut_slice"):
+        if ctx.db(cfg).get(K[name]) is not None and K[name] not in anchors:
+            b, an = analyse(ctx, cfg, K[name], it, False)
+            raw = [c for c in slot_reads(an, it, ("arg", 1))]
+            ctx.ob(rule, "%s#access" % K[name], bool(raw), "no get_unchecked on the iterator's storage; raw slot reads (bounds-checked by C06.S): %d" % len(raw), at=b["at"], cfg=cfg)
     return n
 
 
@@ -420,7 +709,7 @@ def check(ctx):
         check_folds(ctx, cfg, it, "rfold")
         check_clone(ctx, cfg, it)
         n = check_unchecked_bounds(ctx, cfg, it)
-        ctx.floor("C06.U", "get_unchecked sites in iter.rs (%s)" % cfg, n, 8)
+        ctx.floor("C06.U", "unchecked accesses to the iterator's storage (%s)" % cfg, n, 4)
         # FusedIterator / ExactSizeIterator are claimed by impls: they must exist for the checks above to matter
         db = ctx.db(cfg)
         for tr in ("core::iter::FusedIterator", "core::iter::ExactSizeIterator", "core::iter::DoubleEndedIterator"):
